@@ -3,8 +3,8 @@ import copy
 import tracecheck
 
 PID = "C06"
-PROFILE = {"p_ignore": 0.0, "p_valid_inputs": 0.85,
-           "weights": dict(input=0.10, const=0.08, bin=0.47, un=0.06, meth=0.12, ite=0.05, guarded=0.10, ignore=0.0, list=0.02)}
+PROFILE = {"p_ignore": 0.0, "p_valid_inputs": 0.85, "guard_inputs": [0, 3], "max_guard_depth": 3,
+           "weights": dict(input=0.10, const=0.08, bin=0.42, un=0.06, meth=0.12, ite=0.05, guarded=0.15, ignore=0.0, list=0.02)}
 
 
 def variants(case, rnd):
@@ -12,13 +12,18 @@ def variants(case, rnd):
     n, p = case["cfg"]["n"], case["cfg"]["p"]
     v1 = copy.deepcopy(case)
     v1["ins"] = [1 - case["ins"][0] if case["ins"][0] in (0, 1) else 1] + [rnd.randrange(0, 2 ** max(1, n - 1)) for _ in case["ins"][1:]]
+    v1["ins"][3] = case["ins"][3]
+    v4 = copy.deepcopy(case)
+    v4["ins"][3] = 1 - case["ins"][3] if case["ins"][3] in (0, 1) else 0
+    v5 = copy.deepcopy(v1)
+    v5["ins"][3] = v4["ins"][3]
     v2 = copy.deepcopy(case)
     v2["cfg"]["ign"] = 1
     pool = [0, 1, -1, 2 ** n, -2 ** n, 2 ** n + 1, p - 1, p, 3, 5, rnd.randrange(-2 ** (n + 1), 2 ** (n + 1))]
     v2["ins"] = [rnd.choice([0, 1])] + [rnd.choice(pool) for _ in case["ins"][1:]]
     v3 = copy.deepcopy(case)
     v3["cfg"]["ign"] = 1
-    return [v1, v2, v3]
+    return [v1, v2, v3, v4, v5]
 
 
 def oracle(case, rec, group):
@@ -36,13 +41,13 @@ def oracle(case, rec, group):
 
 
 def post(cov, cases, recs):
-    cov["programs"] = len(cases) // 4
-    cov["input_vectors_per_program"] = 4
+    cov["programs"] = len(cases) // 6
+    cov["input_vectors_per_program"] = 6
     cov["pairs_both_completing"] = sum(1 for r in recs if r["exn"] is None)
 
 
 def run(tier, seed):
-    return tracecheck.run(PID, tier, seed, PROFILE, oracle, n_quick=400, n_thorough=6000, variants=variants, post=post, mask=1 | 2 | 4,
+    return tracecheck.run(PID, tier, seed, PROFILE, oracle, n_quick=540, n_thorough=9000, variants=variants, post=post, mask=1 | 2 | 4,
                           extra_assumptions=["shape = (kinds in allocation order, constraints in order with unordered multiplicands and coefficients mod p, result wires)"])
 
 
